@@ -81,6 +81,12 @@ def peers_for(tb, tier, rnd):
                   mac=['hmac-sha1-etm@openssh.com', 'umac-64-etm@openssh.com', 'hmac-sha2-256-etm@openssh.com', 'hmac-md5-etm@openssh.com'], all_sw=True))
     P.append(dict(kex=['curve25519-sha256', 'kex-strict-s-v00@openssh.com'], key=['ssh-ed25519'], enc=['blowfish-cbc', 'aes128-ctr'], mac=['hmac-sha1-96-etm@openssh.com', 'hmac-sha2-512'],
                   all_sw=True))
+    # every CBC spelling of the table at once (the names the Terrapin step and its recommendation handling single out, the oddly
+    # spelled ones included), with and without an ETM MAC and the marker
+    cbcs = sorted(n for n in db['enc'] if n.endswith('-cbc') or '-cbc@' in n)
+    for chunk in (cbcs[:len(cbcs) // 2], cbcs[len(cbcs) // 2:]):
+        P.append(dict(kex=['curve25519-sha256'], key=['ssh-ed25519'], enc=chunk + ['aes256-ctr'], mac=['hmac-sha2-256-etm@openssh.com', 'hmac-sha2-256'], all_sw=True))
+        P.append(dict(kex=['curve25519-sha256', 'kex-strict-s-v00@openssh.com'], key=['ssh-ed25519'], enc=chunk + ['aes256-ctr'], mac=['hmac-sha2-256'], all_sw=True))
     # a spelling the database knows in two categories, advertised in only one of them (and in both): what is advertised as a
     # cipher says nothing about the MACs, and the other way round
     cats = ('kex', 'key', 'enc', 'mac')
